@@ -198,7 +198,13 @@ func (c Cap) Complement() Cap {
 		return FullCap()
 	}
 
-	return CapFromCenterChordAngle(Point{c.center.Mul(-1)}, s1.StraightChordAngle.Sub(c.radius))
+	// Round the radius outward so that the cap and its complement together
+	// cover the sphere: membership is decided by the computed squared distance
+	// to the respective centre, and the two distances of a point near the common
+	// boundary are rounded independently of each other and of the subtraction.
+	radius := s1.StraightChordAngle.Sub(c.radius)
+	radius = radius.Expanded(radius.MaxPointError() + c.radius.MaxPointError() + 2*dblEpsilon)
+	return CapFromCenterChordAngle(Point{c.center.Mul(-1)}, radius)
 }
 
 // CapBound returns a bounding spherical cap. This is not guaranteed to be exact.
